@@ -162,3 +162,9 @@ PROPS["C02"]["units"].append(
     {"name": "c02-store-retry", "pkg": ROOT, "run": "TestVerifC08", "instr": C08_INSTR, "timeout": {"quick": 900, "thorough": 3400}})
 PROPS["C05"]["units"].append(
     {"name": "c05-filter", "pkg": ROOT, "run": "TestVerifC05Filter", "timeout": {"quick": 600, "thorough": 1200}})
+PROPS["C12"] = {
+    "level": "exploration",
+    "units": [
+        {"name": "c12-invitations-descriptors", "pkg": ROOT, "run": "TestVerifC12", "timeout": {"quick": 600, "thorough": 2400}},
+    ],
+}
